@@ -365,12 +365,14 @@ def _(b, k):
 
 
 # ----------------------------------------------------------------------------- CP tensors
-CPW = ("weights_nonunit", "weights_none")
+CPW = ("weights_nonunit", "weights_none", "obj_weights_nonunit", "list_weights_nonunit")
 
 
 def _cpkind(b, k, shape=SHAPE, rank=RANK, nonneg=False):
     if k == "weights_nonunit":
         return b.cp(shape, rank, "tuple", "nonunit", nonneg=nonneg)
+    if k in ("obj_weights_nonunit", "list_weights_nonunit"):
+        return b.cp(shape, rank, form_of(k), "nonunit", nonneg=nonneg)
     if k == "weights_none":
         return b.cp(shape, rank, "tuple", "none", nonneg=nonneg)
     return b.cp(shape, rank, form_of(k), "ones", akind(k), nonneg=nonneg)
@@ -592,51 +594,55 @@ _simple_ttm("tt_matrix_to_vec")
 
 
 # ----------------------------------------------------------------------------- PARAFAC2 tensors
-P2FORMS = ("tuple", "list", "obj", "weights_none")
+P2FORMS = ("tuple", "list", "obj", "weights_none", "weights_nonunit", "obj_weights_nonunit", "list_weights_nonunit")
 
 
-def _p2kind(b, k):
+def _p2kind(b, k, ragged=True):
     if k == "weights_none":
-        return b.p2("tuple", "none")
-    return b.p2(form_of(k))
+        return b.p2("tuple", "none", ragged=ragged)
+    if k.endswith("weights_nonunit"):       # non-unit weights: the conversions must scale a copy, not the caller's factor
+        return b.p2(form_of(k) if "_" in k[:5] else "tuple", "nonunit", ragged=ragged)
+    return b.p2(form_of(k), ragged=ragged)
 
 
-def _simple_p2(name, extra=(), kw=None, out=None, kinds=P2FORMS):
+def _simple_p2(name, extra=(), kw=None, out=None, kinds=P2FORMS, ragged=True):
     @entry("parafac2_tensor." + name, kinds, FLOATS, out=out)
-    def _b(b, k, name=name, extra=extra, kw=kw):
+    def _b(b, k, name=name, extra=extra, kw=kw, ragged=ragged):
         import tensorly.parafac2_tensor as M
-        return Call(getattr(M, name), _p2kind(b, k), *extra, **(kw or {}))
+        return Call(getattr(M, name), _p2kind(b, k, ragged), *extra, **(kw or {}))
     return _b
 
 
 _simple_p2("parafac2_to_slice", (1,))
 _simple_p2("parafac2_to_slices")
-_simple_p2("parafac2_to_unfolded", (1,))
+_simple_p2("parafac2_to_unfolded", (1,), ragged=False)
 _simple_p2("parafac2_normalise")
 _simple_p2("apply_parafac2_projections")
 
 
-@entry("parafac2_tensor.parafac2_to_tensor", ("tuple", "obj"), FLOATS)
+@entry("parafac2_tensor.parafac2_to_tensor", P2FORMS + ("ragged",), FLOATS)
 def _(b, k):
-    from tensorly.parafac2_tensor import parafac2_to_tensor, Parafac2Tensor
-    t = b.p2("tuple", ragged=False)
-    return Call(parafac2_to_tensor, Parafac2Tensor(t) if k == "obj" else t)
+    from tensorly.parafac2_tensor import parafac2_to_tensor
+    if k == "ragged":           # slices of different lengths are zero padded
+        return Call(parafac2_to_tensor, b.p2("tuple", "nonunit", ragged=True))
+    return Call(parafac2_to_tensor, _p2kind(b, k, ragged=False))
 
 
-@entry("parafac2_tensor.parafac2_to_vec", ("tuple", "obj"), FLOATS)
+@entry("parafac2_tensor.parafac2_to_vec", P2FORMS, FLOATS)
 def _(b, k):
-    from tensorly.parafac2_tensor import parafac2_to_vec, Parafac2Tensor
-    t = b.p2("tuple", ragged=False)
-    return Call(parafac2_to_vec, Parafac2Tensor(t) if k == "obj" else t)
+    from tensorly.parafac2_tensor import parafac2_to_vec
+    return Call(parafac2_to_vec, _p2kind(b, k, ragged=False))
 
 
-@entry("parafac2_tensor.Parafac2Tensor.from_CPTensor", ("tuple", "obj", "p2_ok", "invalid"), FLOATS)
+@entry("parafac2_tensor.Parafac2Tensor.from_CPTensor", ("tuple", "obj", "p2_ok", "weights_nonunit", "invalid"), FLOATS)
 def _(b, k):
     from tensorly.parafac2_tensor import Parafac2Tensor
     if k == "p2_ok":
         return Call(Parafac2Tensor.from_CPTensor, b.p2("tuple"), parafac2_tensor_ok=True)
     if k == "invalid":
         return Call(Parafac2Tensor.from_CPTensor, b.p2("tuple")).raises()
+    if k == "weights_nonunit":
+        return Call(Parafac2Tensor.from_CPTensor, b.cp((3, 4, 3), RANK, "obj", "nonunit"))
     return Call(Parafac2Tensor.from_CPTensor, b.cp((3, 4, 3), RANK, form_of(k)))
 
 
